@@ -12,7 +12,7 @@ META = {
     "technique": "CrossHair symbolic execution of _cli.main_cli + reports.emit_report/handle_reports/FilterHandler/Bare/GraphicalHandler with "
                  "symbolic severities, -W selection, report format, --lst and (for the real-compile catalogue) symbolic fault values; z3 decides "
                  "exit status and write set",
-    "bounds": "latch: sequences of <= 3 diagnostics of symbolic severity (none/warning/error/critical) x 5 -W selections x 2 formats x --lst x 4 "
+    "bounds": "latch: sequences of <= 3 diagnostics of symbolic severity (none/warning/error/critical) x 5 -W selections x 2 formats x --lst x 8 "
               "output selectors; unit step: all 16 states of (error condition, swallow, exception class); catalogue: 34 fault templates with the "
               "fault-deciding value symbolic (all integers unless the accepted side allocates: then <= 8)",
     "outside": ["real process exit status and real file system (recording stubs; twin witnesses are additionally replayed through "
@@ -76,8 +76,15 @@ def h_latch(params, vals, ctx):
         kw["outfile"] = "/w/out/o.dat"
     elif selector == "implicit":
         kw["implicit_bin"] = True
+    elif selector == "o+implicit":
+        kw["outfile"] = "/w/out/o.bin"
+        kw["implicit_bin"] = True
+    elif selector == "make+implicit":
+        kw["implicit_bin"] = True
+    elif selector == "make+o":
+        kw["outfile"] = "/w/out/o.bin"
     r = CH.run_cli([SRC], {SRC: "nop\n"}, lst=bool(lst), report_format=CH.FORMATS[f], warnings=CH.WARNING_SELECTIONS[w],
-                   compiler_cls=_fake_compiler(sevs, selector), parse_fn=lambda path, text: ("AST", path), **kw)
+                   compiler_cls=_fake_compiler(sevs, "make" if selector.startswith("make") else selector), parse_fn=lambda path, text: ("AST", path), **kw)
     ctx.observe(r.exit, r.writes, r.crash)
     fail = any(s >= 2 for s in sevs)
     ctx.reach(not fail)
@@ -89,10 +96,12 @@ def h_latch(params, vals, ctx):
         return False
     container = b"\x00\x02\x02\x00\x01\x02"
     exp = {"none": [], "o": [("/w/out/o.bin", "wb", container)], "o-raw": [("/w/out/o.dat", "wb", b"\x01\x02")],
-           "implicit": [("/w/src/a.bin", "wb", container)], "make": [("/w/out/made.bin", "wb", b"MADE")]}[selector]
+           "implicit": [("/w/src/a.bin", "wb", container)], "make": [("/w/out/made.bin", "wb", b"MADE")],
+           "o+implicit": [("/w/out/o.bin", "wb", container)], "make+implicit": [("/w/out/made.bin", "wb", b"MADE")],
+           "make+o": [("/w/out/made.bin", "wb", b"MADE"), ("/w/out/o.bin", "wb", container)]}[selector]
     exp = list(exp)
     if lst and exp:
-        first = exp[0][0]
+        first = exp[-1][0] if selector == "make+o" else exp[0][0]
         stem = first[:-4] if first.endswith(".bin") else first
         if selector == "o-raw":
             stem = first  # 'raw' format: the path does not end with '.raw', nothing is stripped
@@ -190,6 +199,13 @@ def _cat():
         ("warn-list", ".list\n.word {V}\n", lambda v: not (-65536 < v < 65536), big),
         ("warn-legacy", "mov @r1, r0\n.word {V}\n", lambda v: not (-65536 < v < 65536), big),
         ("warn-hash", "trap #{V}\n", lambda v: not (-256 < v < 256), big),
+        ("warn-last-line-no-newline", ".word {V}\n.byte", lambda v: not (-65536 < v < 65536), big),
+        ("warn-last-line-tab-no-newline", "nop\n\t.word {V}\n\t.list", lambda v: not (-65536 < v < 65536), big),
+        ("warn-implicit-accumulator", "clrf r1\n.word {V}\n", lambda v: not (-65536 < v < 65536), big),
+        ("warn-unexpected-newline", ".ascii\n\"ab\"\n.word {V}\n", lambda v: not (-65536 < v < 65536), big),
+        ("unused-symbol-undefined", "X = nosuch + {V}\n.word 1\n", lambda v: True, big),
+        ("unused-symbol-div-zero-later", "X = 10 / Z\nZ = {V}\n.word 1\n", lambda v: v == 0, big),
+        ("unused-symbol-range-later", "X = Y\n.byte 1\nY = 10 % Z\nZ = {V}\n", lambda v: v == 0, big),
         ("warn-meta-typo", "word 5 + {V}\n", lambda v: not (-65536 < v + 5 < 65536), big),
     ]
 
@@ -250,7 +266,7 @@ def h_catalogue(params, vals, ctx):
 def obligations(tier, seed):
     obs = []
     k = 0
-    for sel in ("none", "o", "o-raw", "implicit", "make"):
+    for sel in ("none", "o", "o-raw", "implicit", "make", "o+implicit", "make+implicit", "make+o"):
         for w in range(len(CH.WARNING_SELECTIONS)):
             for f in (0, 1):
                 for lst in (0, 1):
@@ -262,7 +278,7 @@ def obligations(tier, seed):
                                   vars={"S1": "int", "S2": "int", "S3": "int"}, timeout=600, per_path=120,
                                   pre="3 diagnostics of any severity (none/warning/error/critical)"))
     obs.append(Ob(oid="exit-step", harness=P + "h_exit_step", params={}, vars={"E": "int", "SW": "int", "X": "int"}, timeout=200))
-    always = {"undefined", "duplicate", "user-error", "unknown-insn", "operand-count", "parse-critical", "bad-octal", "register-value", "missing-include"}
+    always = {"unused-symbol-undefined", "undefined", "duplicate", "user-error", "unknown-insn", "operand-count", "parse-critical", "bad-octal", "register-value", "missing-include"}
     for c in _cat():
         obs.append(Ob(oid=f"catalogue/{c[0]}", harness=P + "h_catalogue", params={"fault": c[0], "always": c[0] in always},
                       vars={"V": "int", "W": "int", "F": "int"}, timeout=900, per_path=120, note=c[1].replace("\n", " / ")))
